@@ -37,6 +37,9 @@ TBLS = ["t1", "t2", "T1"]
 COLS = ["a", "b", "A"]
 TYPES = ["int", "text", "varchar(10)", "DT:ARRAY<INT>", "DT:DECIMAL(10, 2)", "datetime", "BAD"]
 DIALECTS = [None, "snowflake", "mysql", "clickhouse", "tsql", "duckdb", "bigquery", "postgres", "oracle"]
+# the same dialect class with non-default instance settings, passed per call (as a string or as a Dialect instance)
+SETTINGS_DIALECTS = ["snowflake, normalization_strategy=case_sensitive", "snowflake, normalization_strategy=lowercase", "postgres, normalization_strategy=uppercase",
+                     "duckdb, normalization_strategy=case_sensitive", "mysql, normalization_strategy=lowercase", "bigquery, normalization_strategy=uppercase"]
 CACHES = ["_find_cache", "_normalized_table_cache", "_normalized_name_cache", "_type_mapping_cache"]
 BAD_TYPE = "foo bar ((("
 
@@ -112,7 +115,8 @@ def generate(prop, run_seed, tier):
         "visible": rng.random() < 0.25,
         "faults": faults,
         "fault_rate": rng.choice([0.02, 0.05, 0.1]) if faulted else 0.0,
-        "call_dialect": rng.choice(DIALECTS) if rng.random() < 0.15 else "same",
+        "call_dialect": rng.choice(DIALECTS + SETTINGS_DIALECTS) if rng.random() < 0.18 else "same",
+        "call_dialect_as_instance": rng.random() < 0.4,
         "call_normalize": rng.random() < 0.15,
         "copies": False,
         "add_weight": rng.choice([0.15, 0.3, 0.45]),
@@ -177,6 +181,8 @@ def generate(prop, run_seed, tier):
         if op["k"] not in ("evict", "copy", "find"):
             if cfg["call_dialect"] != "same" and rng.random() < 0.4:
                 op["dialect"] = cfg["call_dialect"]
+                if cfg["call_dialect_as_instance"] and cfg["call_dialect"]:
+                    op["dialect_obj"] = True
             if cfg["call_normalize"] and rng.random() < 0.3:
                 op["normalize"] = rng.random() < 0.5
         ops.append(op)
@@ -260,6 +266,10 @@ def _kw(op, cfg, force_normalize=None):
     kw = {}
     if "dialect" in op:
         kw["dialect"] = op["dialect"]
+        if op.get("dialect_obj"):
+            from sqlglot.dialects.dialect import Dialect
+
+            kw["dialect"] = Dialect.get_or_raise(op["dialect"])  # a Dialect INSTANCE carrying its own settings
     if "normalize" in op:
         kw["normalize"] = op["normalize"]
     if force_normalize is not None and "normalize" not in kw:
